@@ -2,6 +2,7 @@ package main
 
 import (
 	"encoding/base64"
+	"encoding/binary"
 	"encoding/json"
 	"fmt"
 	"sort"
@@ -279,6 +280,10 @@ func (b backendResp) script(r *rng, et *endTables) []action {
 		for _, f := range frames {
 			acts = append(acts, action{Op: "write", Data: f}, action{Op: "flush"})
 		}
+	case 3:
+		for k := range body {
+			acts = append(acts, action{Op: "write", Data: body[k : k+1]})
+		}
 	default:
 		for _, c := range splitChunks(r, body, 2) {
 			acts = append(acts, action{Op: "write", Data: c})
@@ -360,218 +365,311 @@ var respErrMessages = []string{"", "boom", "café not found", "100% wrong", "lin
 var respTrailerSets = [][][2]string{nil, {{"X-Trail", "t1"}}, {{"X-Trail", "t1"}, {"X-Trail", "t2"}, {"X-Bin-Bin", "AAEC"}}, {{"Grpc-Foo", "x"}, {"Connect-Foo", "y"}}}
 var respHeaderSets = [][][2]string{nil, {{"X-Resp", "h1"}}, {{"X-Resp", "h1"}, {"X-Resp", "h2"}, {"Set-Cookie", "a=b"}}, {{"Trailer-Fake", "app"}, {"X-Bin-Bin", "AAEC"}}}
 
+// respCase is one generated response scenario; run renders it under a write segmentation
+type respCase struct {
+	cfg                      e2eConfig
+	form                     int
+	target                   vanguard.Protocol
+	streaming                bool
+	req                      clientReq
+	in2                      L
+	b                        backendResp
+	tables                   *oracleTables
+	lim                      int64
+	tag                      string
+	seed                     uint64
+	newResp                  func() proto.Message
+	serverCodec, clientCodec string
+}
+
+func genResp(r *rng, limits []uint32) *respCase {
+	forms := []int{formConnectPost, formConnectGet, formConnectStream, formGRPC, formGRPCWeb}
+	targets := []vanguard.Protocol{vanguard.ProtocolConnect, vanguard.ProtocolGRPC, vanguard.ProtocolGRPCWeb}
+	form := pick(r, forms)
+	streaming := form == formConnectStream || ((form == formGRPC || form == formGRPCWeb) && r.chance(1, 2))
+	target := pick(r, targets)
+	clientCodec := pick(r, []string{"proto", "json"})
+	sameCodec := r.chance(1, 2)
+	serverCodec := clientCodec
+	if !sameCodec {
+		serverCodec = map[string]string{"proto": "json", "json": "proto"}[clientCodec]
+	}
+	limit := pick(r, limits)
+	cfg := e2eConfig{Service: libraryService, Protocols: []vanguard.Protocol{target}, Codecs: []string{serverCodec}, MaxMsg: limit}
+	var spec clientSpec
+	newResp := methGetBook.NewResp
+	if streaming {
+		cfg.Service = contentService
+		spec = subscribeSpec(form, clientCodec, "", 1)
+		newResp = methSubscribe.NewResp
+	} else {
+		spec = getBookSpec(form, clientCodec, "", bookName("s", "b"))
+	}
+	if formProtocol(form) == target && sameCodec {
+		return nil // pass-through: no response adapter
+	}
+	req := spec.build()
+	in2, ok := creqV(req)
+	if !ok {
+		return nil
+	}
+	b := backendResp{Target: target, Streaming: streaming, Codec: serverCodec, Comp: pick(r, []string{"", "", "gzip", "identity"}),
+		Trailers: pick(r, respTrailerSets), Headers: pick(r, respHeaderSets), Split: r.intn(3), DeclTrailers: r.chance(1, 3)}
+	if b.DeclTrailers {
+		// the same key as response header and as declared trailer is inherently ambiguous
+		hk := map[string]bool{}
+		for _, h := range b.Headers {
+			hk[h[0]] = true
+		}
+		for _, t := range b.Trailers {
+			if hk[t[0]] {
+				b.DeclTrailers = false
+			}
+		}
+	}
+	nmsgs := 1
+	if streaming {
+		nmsgs = r.intn(4)
+	}
+	tables := newTables()
+	lim := int64(limit)
+	if lim == 0 {
+		lim = 4294967295
+	}
+	for m := 0; m < nmsgs; m++ {
+		var msg proto.Message
+		size := pick(r, []int{0, 1, 5, 20, 60})
+		if streaming {
+			msg = &testv1.SubscribeResponse{FilenameChanged: strings.Repeat("f", size)}
+		} else {
+			msg = &testv1.Book{Name: strings.Repeat("n", size)}
+		}
+		plain, _ := vgCodec(serverCodec).MarshalAppend(nil, msg)
+		b.Msgs = append(b.Msgs, plain)
+		b.Flags = append(b.Flags, r.chance(2, 3))
+		p := plain
+		if b.Comp == "gzip" && (b.Flags[m] || (target == vanguard.ProtocolConnect && !streaming)) {
+			p = gzipBytes(plain)
+		}
+		tables.learn(p, newResp, serverCodec, clientCodec, lim)
+	}
+	tag := "success"
+	switch r.intn(10) {
+	case 0, 1, 2:
+		b.ErrCode = int64(1 + r.intn(16))
+		b.ErrMsg = pick(r, respErrMessages)
+		if r.chance(1, 2) {
+			b.Details = []proto.Message{durationpb.New(1500000000)}
+			if r.chance(1, 3) {
+				b.Details = append(b.Details, &testv1.Book{Name: "detail"})
+			}
+		}
+		tag = "error"
+		if r.chance(1, 2) {
+			b.TrailersOnly = true
+			b.Msgs, b.Flags = nil, nil
+			tag = "error-trailers-only"
+		}
+	case 3:
+		b.ErrCode = pick(r, []int64{17, 18, 100, 4294967295})
+		b.ErrMsg = "odd code"
+		tag = "error-oddcode"
+	case 4:
+		b.BareStatus = pick(r, []int{400, 401, 403, 404, 429, 500, 502, 503, 504, 418, 204, 301})
+		b.BareBody = r.intn(4)
+		tag = "bare-http"
+	}
+	switch r.intn(12) {
+	case 0:
+		b.DeclareCL = true
+		tag += "+cl"
+	case 1:
+		b.WrongCT = pick(r, []string{"text/plain", "application/xml", "", "application/grpc+thrift"})
+		tag += "+wrongct"
+	case 2:
+		b.Comp = "br"
+		tag += "+unknowncomp"
+	case 3:
+		b.Cut = 1 + r.intn(6)
+		tag += "+cut"
+	}
+	return &respCase{cfg: cfg, form: form, target: target, streaming: streaming, req: req, in2: in2, b: b, tables: tables, lim: lim, tag: tag, seed: r.next(),
+		newResp: newResp, serverCodec: serverCodec, clientCodec: clientCodec}
+}
+
+// run executes the scenario with the given write segmentation (-1: as generated)
+func (rc *respCase) run(split int) (in L, out L, view clientView, res scenarioResult, ok bool) {
+	b := rc.b
+	if split >= 0 {
+		b.Split = split
+	}
+	form, target, streaming, lim := rc.form, rc.target, rc.streaming, rc.lim
+	r := &rng{s: rc.seed + uint64(b.Split)*977}
+	et := newEndTables()
+	cutEffective := 0
+	if b.Cut > 0 {
+		probe := b
+		probe.Cut = 0
+		full := 0
+		for _, a := range probe.script(&rng{s: 1}, newEndTables()) {
+			if a.Op == "write" {
+				full += len(a.Data)
+			}
+		}
+		if b.Cut < full {
+			cutEffective = b.Cut
+		}
+	}
+	script := b.script(r, et)
+	res = runScenario(rc.cfg, rc.req, script, nil)
+	if res.BuildErr != "" {
+		panic(res.BuildErr)
+	}
+	if res.Backend.Calls != 1 {
+		return nil, nil, view, res, false
+	}
+	known := map[string]bool{"": true, b.ErrMsg: true}
+	view = decodeClient(form, res.Rec)
+	out = view.value(res.Panic != "", res.Backend.Writes, known)
+	// oracle "the JSON end-stream message is larger than the limit": known only from the
+	// substitute message the transcoder then sends
+	endLen := int64(0)
+	for _, e := range view.Ends {
+		if e.Place == 1 && e.Code == 8 && e.Msg == "end of stream message exceeds max buffer size" {
+			endLen = lim + 1
+		}
+	}
+	// the backend's intent, for the monitors
+	var body []byte
+	for _, a := range script {
+		if a.Op == "write" {
+			body = append(body, a.Data...)
+		}
+	}
+	envelopedTarget := !(target == vanguard.ProtocolConnect && !streaming)
+	if !envelopedTarget && b.BareStatus == 0 && b.ErrCode == 0 {
+		// whatever the body ended up as (e.g. after a cut) is the one message
+		rc.tables.learn(body, rc.newResp, rc.serverCodec, rc.clientCodec, lim)
+	}
+	lenient := false
+	if cutEffective > 0 && !envelopedTarget {
+		// a shorter body from a backend without message framing is only detectable if it has
+		// to be decoded: either outcome is acceptable
+		lenient = true
+	}
+	if cutEffective > 0 && envelopedTarget && checkFrames(body) == "" {
+		// cut exactly at a frame boundary: a well-formed shorter stream
+		cutEffective = 0
+		if b.Target != vanguard.ProtocolGRPC {
+			lenient = true // the end frame itself may have been cut off
+		}
+	}
+	if rc.tables.oversize || endLen > 0 {
+		lenient = true // the size limit may legitimately turn the outcome into resource_exhausted
+	}
+	if !envelopedTarget && int64(len(body)) > lim {
+		lenient = true // (also for error bodies)
+	}
+	if envelopedTarget {
+		for rest := body; len(rest) >= 5; {
+			n := int(binary.BigEndian.Uint32(rest[1:5]))
+			if int64(n) > lim {
+				lenient = true // (also for end-of-stream frames)
+			}
+			if len(rest) < 5+n {
+				break
+			}
+			rest = rest[5+n:]
+		}
+	}
+	wellformed := b.WrongCT == "" && (b.Comp == "" || b.Comp == "gzip" || b.Comp == "identity") && cutEffective == 0 &&
+		b.ErrCode >= 0 && b.ErrCode <= 16
+	if b.BareStatus/100 == 2 && b.BareStatus != 200 {
+		wellformed = false // a 2xx other than 200 is not a defined outcome of the RPC protocols
+	}
+	kind := int64(0)
+	if b.BareStatus != 0 {
+		kind = 2
+	} else if b.ErrCode != 0 {
+		kind = 1
+	}
+	hdrOf := func(kvs [][2]string) L {
+		h := map[string][]string{}
+		var order []string
+		for _, kv := range kvs {
+			k := canonical(kv[0])
+			if _, ok := h[k]; !ok {
+				order = append(order, k)
+			}
+			h[k] = append(h[k], kv[1])
+		}
+		out := L{}
+		for _, k := range order {
+			out = append(out, L{B(k), Bl(h[k])})
+		}
+		return out
+	}
+	trailers := b.Trailers
+	if kind == 2 {
+		trailers = nil
+	}
+	intent := L{int64(form), wellformed, kind, b.ErrCode, B(b.ErrMsg), b.errValue()[2], hdrOf(trailers), hdrOf(b.Headers),
+		target == vanguard.ProtocolConnect && !streaming, int64(b.BareStatus), b.TrailersOnly, lenient}
+	in = L{tconfV(rc.cfg), rc.in2, scriptV(script), rc.tables.value(), et.value(), endLen, intent}
+	return in, out, view, res, true
+}
+
+func (rc *respCase) tags(view clientView, res scenarioResult) []string {
+	pairing := fmt.Sprintf("%s<%s", formNames[rc.form], rc.target)
+	tags := []string{"respflow:" + rc.tag, "respflow.pair:" + pairing}
+	if view.Framing != "" {
+		tags = append(tags, "respflow.framing:"+view.Framing)
+	}
+	if res.Panic != "" {
+		tags = append(tags, "respflow.panic")
+	}
+	return tags
+}
+
 func init() {
 	suites["respflow"] = func(c *ctx) {
-		r := c.r
-		forms := []int{formConnectPost, formConnectGet, formConnectStream, formGRPC, formGRPCWeb}
-		targets := []vanguard.Protocol{vanguard.ProtocolConnect, vanguard.ProtocolGRPC, vanguard.ProtocolGRPCWeb}
 		for i := 0; i < c.n; i++ {
-			form := pick(r, forms)
-			streaming := form == formConnectStream || ((form == formGRPC || form == formGRPCWeb) && r.chance(1, 2))
-			target := pick(r, targets)
-			clientCodec := pick(r, []string{"proto", "json"})
-			sameCodec := r.chance(1, 2)
-			serverCodec := clientCodec
-			if !sameCodec {
-				serverCodec = map[string]string{"proto": "json", "json": "proto"}[clientCodec]
+			rc := genResp(c.r, []uint32{0, 0, 4096})
+			if rc == nil {
+				continue
 			}
-			limit := pick(r, []uint32{0, 0, 4096})
-			cfg := e2eConfig{Service: libraryService, Protocols: []vanguard.Protocol{target}, Codecs: []string{serverCodec}, MaxMsg: limit}
-			var spec clientSpec
-			newResp := methGetBook.NewResp
-			if streaming {
-				cfg.Service = contentService
-				spec = subscribeSpec(form, clientCodec, "", 1)
-				newResp = methSubscribe.NewResp
-			} else {
-				spec = getBookSpec(form, clientCodec, "", bookName("s", "b"))
-			}
-			if formProtocol(form) == target && sameCodec {
-				continue // pass-through: no response adapter
-			}
-			req := spec.build()
-			in2, ok := creqV(req)
+			in, out, view, res, ok := rc.run(-1)
 			if !ok {
 				continue
 			}
-			b := backendResp{Target: target, Streaming: streaming, Codec: serverCodec, Comp: pick(r, []string{"", "", "gzip", "identity"}),
-				Trailers: pick(r, respTrailerSets), Headers: pick(r, respHeaderSets), Split: r.intn(3), DeclTrailers: r.chance(1, 3)}
-			if b.DeclTrailers {
-				// the same key as response header and as declared trailer is inherently ambiguous
-				hk := map[string]bool{}
-				for _, h := range b.Headers {
-					hk[h[0]] = true
-				}
-				for _, t := range b.Trailers {
-					if hk[t[0]] {
-						b.DeclTrailers = false
-					}
-				}
-			}
-			nmsgs := 1
-			if streaming {
-				nmsgs = r.intn(4)
-			}
-			tables := newTables()
-			lim := int64(limit)
-			if lim == 0 {
-				lim = 4294967295
-			}
-			for m := 0; m < nmsgs; m++ {
-				var msg proto.Message
-				size := pick(r, []int{0, 1, 5, 20, 60})
-				if streaming {
-					msg = &testv1.SubscribeResponse{FilenameChanged: strings.Repeat("f", size)}
-				} else {
-					msg = &testv1.Book{Name: strings.Repeat("n", size)}
-				}
-				plain, _ := vgCodec(serverCodec).MarshalAppend(nil, msg)
-				b.Msgs = append(b.Msgs, plain)
-				b.Flags = append(b.Flags, r.chance(2, 3))
-				p := plain
-				if b.Comp == "gzip" && (b.Flags[m] || (target == vanguard.ProtocolConnect && !streaming)) {
-					p = gzipBytes(plain)
-				}
-				tables.learn(p, newResp, serverCodec, clientCodec, lim)
-			}
-			tag := "success"
-			switch r.intn(10) {
-			case 0, 1, 2:
-				b.ErrCode = int64(1 + r.intn(16))
-				b.ErrMsg = pick(r, respErrMessages)
-				if r.chance(1, 2) {
-					b.Details = []proto.Message{durationpb.New(1500000000)}
-					if r.chance(1, 3) {
-						b.Details = append(b.Details, &testv1.Book{Name: "detail"})
-					}
-				}
-				tag = "error"
-				if r.chance(1, 2) {
-					b.TrailersOnly = true
-					b.Msgs, b.Flags = nil, nil
-					tag = "error-trailers-only"
-				}
-			case 3:
-				b.ErrCode = pick(r, []int64{17, 18, 100, 4294967295})
-				b.ErrMsg = "odd code"
-				tag = "error-oddcode"
-			case 4:
-				b.BareStatus = pick(r, []int{400, 401, 403, 404, 429, 500, 502, 503, 504, 418, 204, 301})
-				b.BareBody = r.intn(4)
-				tag = "bare-http"
-			}
-			switch r.intn(12) {
-			case 0:
-				b.DeclareCL = true
-				tag += "+cl"
-			case 1:
-				b.WrongCT = pick(r, []string{"text/plain", "application/xml", "", "application/grpc+thrift"})
-				tag += "+wrongct"
-			case 2:
-				b.Comp = "br"
-				tag += "+unknowncomp"
-			case 3:
-				b.Cut = 1 + r.intn(6)
-				tag += "+cut"
-			}
-			et := newEndTables()
-			cutEffective := 0
-			if b.Cut > 0 {
-				probe := b
-				probe.Cut = 0
-				full := 0
-				for _, a := range probe.script(&rng{s: 1}, newEndTables()) {
-					if a.Op == "write" {
-						full += len(a.Data)
-					}
-				}
-				if b.Cut < full {
-					cutEffective = b.Cut
-				}
-			}
-			script := b.script(r, et)
-			res := runScenario(cfg, req, script, nil)
-			if res.BuildErr != "" {
-				panic(res.BuildErr)
-			}
-			if res.Backend.Calls != 1 {
+			c.emit(Case{Suite: "serve.response", In: in, Out: out, Tags: rc.tags(view, res), Desc: res.Panic + stackSummary(res.PanicStack)})
+		}
+	}
+	// the same backend response under four write segmentations (one write, one write per frame with
+	// flushes, random pieces, single bytes), with limits close to the message sizes: every run must
+	// agree with the model, and all four must give the client the same response (C08)
+	suites["segments"] = func(c *ctx) {
+		for i := 0; i < c.n/4; i++ {
+			rc := genResp(c.r, []uint32{0, 4096, 128, 60, 30})
+			if rc == nil {
 				continue
 			}
-			known := map[string]bool{"": true, b.ErrMsg: true}
-			view := decodeClient(form, res.Rec)
-			out := view.value(res.Panic != "", res.Backend.Writes, known)
-			// oracle "the JSON end-stream message is larger than the limit": known only from the
-			// substitute message the transcoder then sends
-			endLen := int64(0)
-			for _, e := range view.Ends {
-				if e.Place == 1 && e.Code == 8 && e.Msg == "end of stream message exceeds max buffer size" {
-					endLen = lim + 1
+			var views L
+			okAll := true
+			for split := 0; split < 4; split++ {
+				in, out, view, res, ok := rc.run(split)
+				if !ok {
+					okAll = false
+					break
 				}
+				tags := append(rc.tags(view, res), fmt.Sprintf("segments.split:%d", split))
+				c.emit(Case{Suite: "serve.response", In: in, Out: out, Tags: tags, Desc: res.Panic + stackSummary(res.PanicStack)})
+				// the client's view without the per-Write results (their number depends on the segmentation)
+				views = append(views, out[:6])
 			}
-			// the backend's intent, for the monitors
-			var body []byte
-			for _, a := range script {
-				if a.Op == "write" {
-					body = append(body, a.Data...)
-				}
+			if okAll {
+				c.emit(Case{Suite: "segments.meta", In: L{int64(rc.form), int64(rc.lim)}, Out: views, Tags: []string{"segments:" + rc.tag}})
 			}
-			envelopedTarget := !(target == vanguard.ProtocolConnect && !streaming)
-			lenient := false
-			if cutEffective > 0 && !envelopedTarget {
-				// a shorter body from a backend without message framing is only detectable if it has
-				// to be decoded: either outcome is acceptable
-				lenient = true
-			}
-			if cutEffective > 0 && envelopedTarget && checkFrames(body) == "" {
-				// cut exactly at a frame boundary: a well-formed shorter stream
-				cutEffective = 0
-				if b.Target != vanguard.ProtocolGRPC {
-					lenient = true // the end frame itself may have been cut off
-				}
-			}
-			wellformed := b.WrongCT == "" && (b.Comp == "" || b.Comp == "gzip" || b.Comp == "identity") && cutEffective == 0 &&
-				b.ErrCode >= 0 && b.ErrCode <= 16
-			if b.BareStatus/100 == 2 && b.BareStatus != 200 {
-				wellformed = false // a 2xx other than 200 is not a defined outcome of the RPC protocols
-			}
-			kind := int64(0)
-			if b.BareStatus != 0 {
-				kind = 2
-			} else if b.ErrCode != 0 {
-				kind = 1
-			}
-			hdrOf := func(kvs [][2]string) L {
-				h := map[string][]string{}
-				var order []string
-				for _, kv := range kvs {
-					k := canonical(kv[0])
-					if _, ok := h[k]; !ok {
-						order = append(order, k)
-					}
-					h[k] = append(h[k], kv[1])
-				}
-				out := L{}
-				for _, k := range order {
-					out = append(out, L{B(k), Bl(h[k])})
-				}
-				return out
-			}
-			trailers := b.Trailers
-			if kind == 2 {
-				trailers = nil
-			}
-			intent := L{int64(form), wellformed, kind, b.ErrCode, B(b.ErrMsg), b.errValue()[2], hdrOf(trailers), hdrOf(b.Headers),
-				target == vanguard.ProtocolConnect && !streaming, int64(b.BareStatus), b.TrailersOnly, lenient}
-			in := L{tconfV(cfg), in2, scriptV(script), tables.value(), et.value(), endLen, intent}
-			pairing := fmt.Sprintf("%s<%s", formNames[form], target)
-			tags := []string{"respflow:" + tag, "respflow.pair:" + pairing}
-			if view.Framing != "" {
-				tags = append(tags, "respflow.framing:"+view.Framing)
-			}
-			if res.Panic != "" {
-				tags = append(tags, "respflow.panic")
-			}
-			c.emit(Case{Suite: "serve.response", In: in, Out: out, Tags: tags, Desc: res.Panic + stackSummary(res.PanicStack)})
 		}
 	}
 }
